@@ -595,4 +595,43 @@ def compileGo (p : Prog) : CRes Unit :=
     front p
     goPath (ctxOf p f)
 
+
+/-! ### The command line (`main.go`): flags, the loop over the input files, the exit status -/
+
+/-- What `compiler.Compile` does with one input file: returns nil, or an error / a recovered
+panic (both end as `Failed to generate …` and `os.Exit(1)`). -/
+inductive FileVerdict where
+  | valid | invalid
+  deriving DecidableEq, Repr, Inhabited
+
+structure CliResult where
+  exit : Nat        -- process exit status
+  compiled : Nat    -- number of input files `Compile` was called on
+  deriving DecidableEq, Repr, Inhabited
+
+/-- `for _, options.File = range c.Args() { err = Compile(options); if err != nil { …; os.Exit(1) } }`. -/
+def cliLoop : List FileVerdict → Nat → CliResult
+  | [], n => { exit := 0, compiled := n }
+  | .valid :: fs, n => cliLoop fs (n + 1)
+  | .invalid :: _, n => { exit := 1, compiled := n + 1 }
+
+/-- Languages `GetProgramGenerator` knows. -/
+def knownLanguages : List Name := ["dart", "go", "java", "json", "py", "html"].map String.toList
+
+/-- The `-gen` value is accepted by `CleanGenParam` and names a known language. It is looked at
+inside `Compile`, after the file has been parsed: a bad value makes EVERY file fail. -/
+def genAccepted (gen : Name) : Bool :=
+  match cleanGenParam gen with
+  | .ok (lang, _) => knownLanguages.contains lang
+  | _ => false
+
+/-- `frugal [-gen g] [-r] -out d f1 … fk` (no `-help`, `-version`, `-audit`): no file or no `-gen`
+is a usage error (exit 1, nothing compiled). -/
+def cliMain (gen : Option Name) (files : List FileVerdict) : CliResult :=
+  if files = [] then { exit := 1, compiled := 0 }
+  else
+    match gen with
+    | none => { exit := 1, compiled := 0 }
+    | some g => cliLoop (files.map fun v => if genAccepted g then v else .invalid) 0
+
 end FV.Compile
